@@ -20,7 +20,7 @@ TECHNIQUE = "exhaustive enumeration of tables x strings against a reference long
 RULE = ("case = one table (codec family: all strings) or one (table, scoping context) (program family: all strings <=3). evaluations = "
         "(table, string) pairs / programs. non-trivial = table has overlapping entry texts (one a prefix of another) or the string has "
         "an escape or unknown character; (table, string) pairs are distinct by construction.")
-ASSUMPTIONS = ["reference tokenizer mc/ref/tbl.py", "table files written as HEX=text lines"]
+ASSUMPTIONS = ["reference tokenizer mc/ref/tbl.py", "table files written as HEX=text lines with LF, CR LF or CR line ends (text-mode universal newlines), with or without the final line end"]
 
 TEXTS = ["a", "b", "ab", "ba", "aa", "abc"]
 ALPH = ["a", "b", "c", "z", "[0x41]", "[0x7F]", "[", " "]
@@ -107,6 +107,18 @@ def describe(case, res):
     return d
 
 
+def file_style(text, k):
+    """The same table as a file with LF, CR LF or CR line ends, or without the final line end."""
+    k %= 4
+    if k == 1:
+        return text.replace("\n", "\r\n")
+    if k == 2:
+        return text[:-1] if text.endswith("\n") else text
+    if k == 3:
+        return text.replace("\n", "\r")
+    return text
+
+
 def overlapping(entries):
     ks = list(entries)
     return any(a != b and b.startswith(a) for a in ks for b in ks)
@@ -115,7 +127,7 @@ def overlapping(entries):
 def run_codec(ti, maxlen):
     from script import Table
     entries = tables()[ti]
-    impl.write_files({"t.tbl": tbl.table_file(entries)})
+    impl.write_files({"t.tbl": file_style(tbl.table_file(entries), ti)})
     t = Table("t.tbl")
     upf = tbl.unique_prefix_free(entries)
     ov = overlapping(entries)
@@ -175,7 +187,7 @@ def program(ctx, s):
     return f"*=0x{ORG:06x}\n.table 'u.tbl'\n.scope ns {{\n.table 't.tbl'\n{txt}inner:\n}}\n{txt}after:\n.dw 0xEEDD\n", ["t", "u"]
 
 
-QUOTE_TABLE = {"a": b"\x10", "'": b"\x27", "\\": b"\x5C", "b": b"\x11"}
+QUOTE_TABLE = {"a": b"\x10", "'": b"\x27", "\\": b"\x5C", "b": b"\x11", "n": b"\x12", "t": b"\x13"}
 
 
 def run_quotes():
@@ -185,7 +197,7 @@ def run_quotes():
     viol = []
     evals = 0
     for n in range(1, 4):
-        for tup in itertools.product(["a", "b", "\\'", "z"], repeat=n):
+        for tup in itertools.product(["a", "b", "\\'", "z", "\\n", "\\t", "n"], repeat=n):
             s_ = "".join(tup)
             src = f"*=0x{ORG:06x}\n.table 'q.tbl'\n.text '{s_}'\nafter:\n.dw 0xEEDD\n"
             exp = tbl.encode(QUOTE_TABLE, s_)[0]
@@ -198,7 +210,7 @@ def run_quotes():
 
 def run_prog(ti, ctx):
     entries = tables()[ti]
-    files = {"t.tbl": tbl.table_file(entries), "u.tbl": tbl.table_file(UTBL)}
+    files = {"t.tbl": file_style(tbl.table_file(entries), ti // 61), "u.tbl": tbl.table_file(UTBL)}
     impl.write_files(files)
     ref = refbus.lorom()
     viol = []
